@@ -4,6 +4,11 @@ The real build.ninja of generated projects is executed by harness/refninja.py wi
 the schedule: (1) reference build in declaration-stable topological order, (2) hermetic replay of every
 edge with ONLY its declared ancestors' outputs present, (3) depfile cross-check, (4) random and
 adversarial topological orders and parallel waves, all required to succeed with identical digests.
+
+Two sources of projects share that oracle (judge_build): Hypothesis project models (harness/projgen.py: plain C
+targets, custom targets, generators, configure_file) and the deterministic catalogue of feature projects
+(harness/featproj.py: precompiled headers, Rust, Java, Fortran, link_depends:, objects:, extract_objects(), ...)
+whose language / feature specific backend paths the random models never reach.
 """
 from __future__ import annotations
 
